@@ -16,6 +16,17 @@ CLAIMED = {
         design="3/C02"),
 }
 
+CLAIMED["C03"] = dict(
+    text="Generated-input search against the textbook affine group law on integers: the Edwards decoder on 32-byte strings by class (valid, the 2x19 non-canonical y, y=+-1/0 with either sign bit, sign-flipped, off-curve, special patterns), and histories of up to 40 group operations over six registers drawn from the full group of order 8l with imposed exceptional relations (Q=-P, Q=P, Q=P+T); after every step the compressed encoding and, through the hook, the extended coordinates (curve equation, XY=ZT, Z!=0, X/Z and Y/Z equal to the model) are checked; at the end the == matrix and the identity/small-order/torsion-free predicates. Six back-end builds. Exploration level.",
+    note="Trusts the reference model. The decoder oracle is the statement's rule (accept iff (y^2-1)/(dy^2+1) is a square, y reduced mod p; requested sign unless x=0), not RFC 8032's stricter one.",
+    technique="property-based testing (proptest): model-based histories with shrinking + decoder class generators",
+    design="3/C03")
+CLAIMED["C04"] = dict(
+    text="Generated-input search against the definition sum s_i*P_i computed in the abstract group Z/l x Z/8 (pool points with known discrete logs and torsion components) or by model double-and-add (arbitrary points): every Edwards scalar-multiplication entry point incl. tables of five radices built from arbitrary points, radix conversions, optional/None inputs, fewer static scalars, n on every regime boundary up to 1000, with window-structured scalars (canonical, and unreduced < 2^255 where documented); every case is executed once per implementation the run-time dispatcher could select (serial/AVX2/IFMA forced through the hook), in nine builds (six back ends + three without precomputed tables); the signed-digit recoders are checked directly by a validity predicate at high volume. Exploration level.",
+    note="Trusts the reference model and the guarded dispatcher override. Montgomery ladder and Ristretto wrappers are covered under C07/C06 and added to this check's stream as they are built.",
+    technique="property-based testing (proptest) against a reference model; forced run-time dispatch; validity-predicate oracle for recoders",
+    design="3/C04")
+
 ALL = ["C%02d" % i for i in range(1, 18)]
 REASON_PENDING = "check not built yet (see DESIGN.md build order); not claimed"
 
